@@ -115,5 +115,7 @@ def stream(ctx, g, rng, n, length, sig):
         ctx.count("loaded_history:" + origin)
         ctx.case(repr(h.items), True)
         hs.append(h)
+    if n and not hs:
+        ctx.add("corr", sig + ":no-histories", "none of %d generated files could be loaded and continued (save or load fails on every one)" % n, {})
     worldgen.compare(ctx, hs, sig, "histories continued from a loaded IR")
     return hs
